@@ -344,7 +344,7 @@ pub fn run_c16(ctx: &mut Ctx, _known: &Known) {
         let mut extra = vec![];
         for d in &c.docs {
             let mut d2 = d.as_mapping().cloned().unwrap_or_default();
-            for noise in ["zz", "unaddressed", "noise", "a_", "A"] {
+            for noise in ["zz", "unaddressed", "noise", "a_", "A", "k", "p", "q", "name", "0"] {
                 let addressed = written.iter().any(|w| w == noise || w.starts_with(&format!("{}.", noise)) || w.starts_with(&format!("{}[", noise)));
                 if !addressed {
                     match r.below(3) {
